@@ -90,7 +90,9 @@ def mk_data(vals, carrier="nd_f8"):
     if carrier == "nd_f4":
         return np.array(fl, dtype=np.float32)
     if carrier == "nd_i8":
-        assert all(v is not None and Fraction(v).denominator == 1 for v in vals)
+        if not all(v is not None and Fraction(v).denominator == 1 for v in vals):
+            # a derived case (shifted, perturbed, shrunk) that is no longer on whole numbers: the float64 array
+            return np.array(fl, dtype=np.float64)
         return np.array([int(v) for v in vals], dtype=np.int64)
     if carrier == "nd_i1":
         # the narrowest signed dtype: a sum or difference of two cells leaves its range
